@@ -7,6 +7,8 @@ ID = "C13"
 TITLE = "Depth normalisation reorients coordinates and data together, idempotently"
 MC = {"quick": [("MC_Depth", "MC_Depth.cfg", 8)], "thorough": [("MC_Depth", "MC_Depth_thorough.cfg", 16)]}
 TRACE = ("Trace_Depth", "Trace_Depth.cfg")
+# the repository\'s own tests, recorded by harness/harvest_plugin.py, judged by the same trace specification
+ALSO = {"quick": [], "thorough": ["harness.props.hv13"]}
 REQUIRED = ["Normalize", "pd-none", "pd-yes", "pd-no", "d2s-none", "d2s-yes", "d2s-no", "via-accessor", "via-function",
             "data-reversed", "attr-withheld", "with-bounds", "two-depth-coordinates",
             "cf1d", "cf2d", "shoc_simple", "shoc_standard", "arakawa", "ugrid"]
